@@ -157,10 +157,22 @@ func (in *Interp) makeSlice(et types.Type, l, c int) SliceV {
 }
 
 func (in *Interp) sliceElems(s SliceV) []Value {
+	if s.slen != nil {
+		// symbolic-length slices support only len, index, append and re-slicing from 0
+		panic(&pathEnd{kind: "unsupported", msg: "operation on a symbolic-length slice"})
+	}
 	if s.obj == nil {
 		return nil
 	}
 	return s.obj.val.(*ArrayV).e[s.off : s.off+s.len]
+}
+
+// lenTerm returns the length of a slice as a 64-bit term.
+func (in *Interp) lenTerm(s SliceV) *Term {
+	if s.slen != nil {
+		return s.slen
+	}
+	return in.F.Const(64, uint64(s.len))
 }
 
 // indexAddr: X is *array or slice.
@@ -180,6 +192,16 @@ func (in *Interp) indexAddr(x Value, idx *Term) Value {
 		off = xv.off
 		if xv.obj != nil {
 			base = &Ptr{obj: xv.obj}
+		}
+		if xv.slen != nil {
+			// symbolic length: the index must be below it (and is then below the maximum n)
+			i64 := idx
+			if i64.sort.W < 64 {
+				i64 = in.F.ZExt(i64, 64)
+			}
+			if !in.decide(in.F.ULt(i64, xv.slen)) {
+				in.goPanicRuntime("index out of range [i] with symbolic length")
+			}
 		}
 	default:
 		panic(engineErr(fmt.Sprintf("indexAddr on %T", x)))
@@ -278,6 +300,17 @@ func (in *Interp) sliceOp(fr *Frame, ins *ssa.Slice) Value {
 		}
 		return in.strFromBytes(xv.sym[lo:hi])
 	case SliceV:
+		if xv.slen != nil {
+			// only s[lo:] with concrete lo is supported on symbolic-length slices
+			if ins.High != nil || ins.Max != nil {
+				panic(&pathEnd{kind: "unsupported", msg: "s[:hi] on a symbolic-length slice"})
+			}
+			lo := getI(ins.Low, 0)
+			if lo < 0 || !in.decide(in.F.ULe(in.F.Const(64, uint64(lo)), xv.slen)) {
+				in.goPanicRuntime("slice bounds out of range with symbolic length")
+			}
+			return SliceV{obj: xv.obj, off: xv.off + lo, len: xv.len - lo, cap: xv.cap - lo, slen: in.F.Sub(xv.slen, in.F.Const(64, uint64(lo)))}
+		}
 		lo := getI(ins.Low, 0)
 		hi := getI(ins.High, xv.len)
 		max := getI(ins.Max, xv.cap)
@@ -1144,7 +1177,7 @@ func (in *Interp) callBuiltin(caller *Frame, b *ssa.Builtin, args []Value, site 
 		case Str:
 			return F.Const(64, uint64(x.Len()))
 		case SliceV:
-			return F.Const(64, uint64(x.len))
+			return in.lenTerm(x)
 		case *MapV:
 			if x == nil {
 				return F.Const(64, 0)
@@ -1184,6 +1217,24 @@ func (in *Interp) callBuiltin(caller *Frame, b *ssa.Builtin, args []Value, site 
 		var add []Value
 		switch y := args[1].(type) {
 		case SliceV:
+			if y.slen != nil {
+				// append(concrete-length, symbolic-length...): the result has symbolic length
+				if s.slen != nil {
+					panic(&pathEnd{kind: "unsupported", msg: "append to a symbolic-length slice"})
+				}
+				et := b.Type().(*types.Signature).Results().At(0).Type().Underlying().(*types.Slice).Elem()
+				ns := in.makeSlice(et, s.len+y.len, s.len+y.len)
+				arr := ns.obj.val.(*ArrayV)
+				for i, v := range in.sliceElems(s) {
+					arr.e[i] = copyVal(v)
+				}
+				src := y.obj.val.(*ArrayV).e[y.off : y.off+y.len]
+				for i, v := range src {
+					arr.e[s.len+i] = copyVal(v)
+				}
+				ns.slen = in.F.Add(in.F.Const(64, uint64(s.len)), y.slen)
+				return ns
+			}
 			add = in.sliceElems(y)
 		case Str:
 			for _, t := range in.strBytes(y) {
